@@ -9,7 +9,7 @@
    c12_spec_failures  : specification oracle on the implementation's sizes only
                         (never above the bound; no growth between successive
                         equal phases), failure code = 100 * component + kind. *)
-From IV Require Import Base.Word Model.Unwrapper Model.MemBound Model.MemBoundClose Model.MemBoundPacers.
+From IV Require Import Base.Word Model.Unwrapper Model.MemBound Model.MemBoundClose Model.MemBoundPacers Model.MemBoundR5.
 Open Scope Z_scope.
 
 Definition entry := (Z * list Z * list Z)%type.
@@ -102,6 +102,28 @@ Definition dec_lbs (st : lbs) (opc : Z) (a : list Z) : lbs :=
   else if opc =? 5 then lbs_step st (LbRemove (arg 0 a))
   else if opc =? 7 then lbs_step st (LbAdd (arg 0 a) 2)
   else st.
+(* the same pacer with the budget of a tick COMPUTED from the time since the last written packet
+   (cfg = [1; via; initial bitrate], three entries): additionally 8 = SetTargetBitrate r, 9 = n ticks of
+   5 ms (what the driver waited for at least, see spec_code); the bitrates are as low as 60 bit/s *)
+Definition dec_lbt (st : lbt) (opc : Z) (a : list Z) : lbt :=
+  if opc =? 1 then lbt_step st (LtOp (LbEnq (arg 0 a) (arg 1 a)))
+  else if opc =? 2 then lbt_step st (LtOp (LbRelease (arg 0 a)))
+  else if opc =? 3 then lbt_step st (LtOp LbClose)
+  else if opc =? 4 then lbt_step st (LtOp (LbAdd (arg 0 a) 1))
+  else if opc =? 5 then lbt_step st (LtOp (LbRemove (arg 0 a)))
+  else if opc =? 7 then lbt_step st (LtOp (LbAdd (arg 0 a) 2))
+  else if opc =? 8 then lbt_step st (LtSetRate (arg 0 a))
+  else if opc =? 9 then lbt_step st (LtTicks (arg 0 a))
+  else st.
+Definition lbt_cfg_rate (cfg : list Z) : Z := if arg 2 cfg =? 0 then 2000000000 else arg 2 cfg.
+(* report.ReceiverInterceptor (component 19): 1 = BindRemoteStream ssrc, 2 = UnbindRemoteStream ssrc,
+   3 = an RTCP sender report of ssrc read through the reader BindRTCPReader returned, 4 = an RTP
+   packet read through the reader of the (once) bound stream ssrc (no effect on the sizes) *)
+Definition dec_rr (st : rr) (opc : Z) (a : list Z) : rr :=
+  if opc =? 1 then rr_step st (RrBind (arg 0 a))
+  else if opc =? 2 then rr_step st (RrUnbind (arg 0 a))
+  else if opc =? 3 then rr_step st (RrSenderReport (arg 0 a))
+  else st.
 (* pacing interceptor with the real limiter (component 18): 1 = Write, 2 = settled (everything
    released), 4 = InterceptorFactory.SetRate r; cfg = [mode; interval ms (0 = default 5);
    InitialRate (0 = default 1000000)] *)
@@ -154,8 +176,11 @@ Definition model_ok (c : c12case) : bool :=
   else if (comp =? 13) || (comp =? 14) then run_cmp dec_fq (fun st => [fst st]) (0, false) tr
   else if comp =? 15 then run_cmp dec_h h_sizes h_init tr
   else if comp =? 16 then run_cmp dec_gw gw_sizes gw_init tr
-  else if comp =? 17 then run_cmp dec_lbs lbs_sizes lbs_init tr
+  else if comp =? 17 then
+    (if 3 <=? zlen cfg then run_cmp dec_lbt lbt_sizes (lbt_init (lbt_cfg_rate cfg)) tr
+     else run_cmp dec_lbs lbs_sizes lbs_init tr)
   else if comp =? 18 then run_cmp dec_pcr pcr_sizes (pcr_init (pcr_cfg_rate cfg) (pcr_cfg_iv cfg)) tr
+  else if comp =? 19 then run_cmp dec_rr rr_sizes rr_init tr
   else false.
 
 Definition c12_mismatches (cases : list c12case) : list nat :=
@@ -243,7 +268,13 @@ Definition spec_code (c : c12case) : Z :=
     else if comp =? 17 then
       (* cfg = [1; via]: the pacing rate is far above the load and every sample is taken after the
          driver let the pacer settle (phase ends included): nothing may be held there, whatever was
-         done to the streams of the queued packets (theorem C12_leakybucket_streams_drain) *)
+         done to the streams of the queued packets (theorem C12_leakybucket_streams_drain).
+         cfg = [1; via; initial bitrate]: the same at ANY target bitrate >= 1 bit/s, however low: every
+         sample is taken after the driver waited (at least) the time the queued packets need when the
+         budget accumulates over the idle ticks - (ceil(8000 / bitrate) + 5) ms per queued packet,
+         opcode 9 carries that time in ticks - and arrivals are that slow (theorem
+         C12_leakybucket_low_rate_drains); the driver in fact waits until the queue is empty, at
+         least 2 s and at least four times that time.  A hard bound, not the growth heuristic. *)
       spec_fold (fun (u : unit) _ _ => u) (fun _ o => bool_code (arg 0 o =? 0) 1701) tt tr
     else if comp =? 18 then
       (* cfg = [1; interval; initial rate]: the load is far below the CONFIGURED rate (the last SetRate)
@@ -254,6 +285,12 @@ Definition spec_code (c : c12case) : Z :=
       spec_fold (fun (u : unit) _ _ => u)
                 (fun _ o => if negb (arg 0 o =? 0) then 1801
                             else bool_code (arg 1 o * pcr_cfg_iv cfg / 1000 <=? arg 2 o) 1805) tt tr
+    else if comp =? 19 then
+      (* per-stream states <= currently bound streams, at every sample, whatever RTCP came in (theorem
+         C12_report_receiver_states_bounded); 1901 = the excess appears after an Unbind (also: the
+         state of an unbound stream is back), 1903 = without any Unbind in the history *)
+      spec_fold (fun (s : list Z * bool) opc a => (set_upd 1 2 (fst s) opc a, snd s || (opc =? 2)))
+                (fun s o => if arg 0 o <=? zlen (fst s) then 0 else if snd s then 1901 else 1903) ([], false) tr
     else 9999 in
   if negb (bound_code =? 0) then bound_code
   (* The growth heuristic (strict growth over three identical steady-state phases) is applied only to
@@ -266,7 +303,10 @@ Definition spec_code (c : c12case) : Z :=
      a real leak exceeds the hard bound and differs from the model's size (mismatch).
      Components 17 / 18 (the pacers with streams / with the real limiter) are only driven in the
      regime where the code provably drains: "nothing held" is a hard bound at every sample there
-     (1701 / 1801), no growth heuristic is needed. *)
+     (1701 / 1801), no growth heuristic is needed - this includes the leaky bucket at bitrates below
+     1600 bit/s, where one 5 ms tick alone has no budget and the code drains because the budget
+     accumulates over idle ticks.  Component 19 (receiver-report interceptor) has the hard bound
+     "states <= bound streams". *)
   else if ((comp =? 13) || (comp =? 14) || (comp =? 15)) && grows3 (marks tr) then
     if (comp =? 13) || (comp =? 14) then (if arg 0 cfg =? 1 then 100 * comp + 4 else 100 * comp + 2)
     else if comp =? 15 then (if has_op 2 tr || has_op 3 tr then 1503 else 1502)
